@@ -1410,3 +1410,85 @@ Proof. intros cfg b r S P C. unfold handle_download. rewrite P, S, C. reflexivit
 
 Lemma no_download_without_save : forall cfg b r, c_save cfg = false -> handle_download cfg b r = None.
 Proof. exact handle_download_nosave. Qed.
+
+(* ---------- any state checker ---------- *)
+
+(* a custom resultStateCheckFunc is an arbitrary function: its verdict IS the state ... *)
+Lemma custom_checker_decides : forall r s, r_present r = true -> r_chk r = Some s -> result_state r = s.
+Proof. intros r s P C. unfold result_state. rewrite P, C. reflexivity. Qed.
+
+(* ... so the binding theorems above (stated for every response record) hold for every checker;
+   in particular a verdict outside {SuccessState, ErrorState} binds nothing and raises nothing *)
+Lemma other_state_binds_nothing : forall tg b r,
+  result_state r <> SuccessState -> result_state r <> ErrorState ->
+  parse_response_body tg b r = (r, None).
+Proof.
+  intros tg b r N1 N2. unfold parse_response_body. destruct (negb (r_present r)); [reflexivity|].
+  destruct (result_state r =? SuccessState) eqn:S; [apply Z.eqb_eq in S; contradiction|].
+  destruct (result_state r =? ErrorState) eqn:E; [apply Z.eqb_eq in E; contradiction|]. reflexivity.
+Qed.
+
+(* the checker may call a 2xx an error and a 5xx a success: binding follows the verdict, not the code *)
+Lemma checker_overrides_status : forall tg b r,
+  r_present r = true -> r_chk r = Some ErrorState -> r_result r = false ->
+  r_result (fst (parse_response_body tg b r)) = false.
+Proof.
+  intros tg b r P C R0. destruct (r_result (fst (parse_response_body tg b r))) eqn:X; [|reflexivity].
+  apply (success_result_iff tg b r R0) in X. destruct X as (_ & _ & S & _).
+  rewrite (custom_checker_decides r ErrorState P C) in S. pose proof states_distinct as (D & _). congruence.
+Qed.
+
+(* ---------- several attempts: whose bindings does the caller get? ---------- *)
+
+(* going round again starts from a response without bindings and without cached body *)
+Lemma retry_clears_bindings : forall fl cfg a n prev r l,
+  do_attempt fl cfg a n prev = (Again r, l) -> r_result r = false /\ r_error r = ENone /\ r_cached r = false.
+Proof.
+  intros fl cfg a n prev r l H. unfold do_attempt in H.
+  destruct (run_before (a_ud a) 0) as [[x|] l_ud]; [discriminate|].
+  destruct (a_bi a); [discriminate|].
+  destruct (wrapped_round_trip fl cfg a) as [[ro e] l_rt].
+  destruct (run_req fl cfg (a_req a) 0 (normalise ro e)) as [[r2 [x|]] l_req]; [discriminate|].
+  destruct (retry_decision cfg a n e) as [again l_c]. destruct again; [|discriminate].
+  destruct (a_sleep_cancel a); [discriminate|]. inversion H; subst. cbn. auto.
+Qed.
+
+(* an iteration that gets past the request middleware does not look at what earlier iterations
+   left behind: Client.roundTrip makes a new response *)
+Lemma attempt_independent_of_prev : forall fl cfg a n prev prev',
+  fst (run_before (a_ud a) 0) = None -> a_bi a = None ->
+  do_attempt fl cfg a n prev = do_attempt fl cfg a n prev'.
+Proof.
+  intros fl cfg a n prev prev' B Bi. unfold do_attempt.
+  destruct (run_before (a_ud a) 0) as [e_ud l_ud]. cbn in B. subst e_ud. rewrite Bi. reflexivity.
+Qed.
+
+(* the caller's response is what the LAST iteration returned (through the deferred function);
+   that iteration started from nothing (first) or from a response cleared of bindings *)
+Lemma result_is_last_attempts : forall fl cfg atts n prev r e ls,
+  do_loop fl cfg atts n prev = DoRet (Some r) e ls ->
+  exists k a prev' ro e0 l,
+    k = (length ls - 1)%nat /\ nth_error atts k = Some a /\ nth_error ls k = Some l /\
+    do_attempt fl cfg a (n + Z.of_nat k) prev' = (Stop ro e0, l) /\ do_deferred ro e0 = (Some r, e) /\
+    ((k = 0)%nat -> prev' = prev) /\
+    ((0 < k)%nat -> exists p, prev' = Some p /\ r_result p = false /\ r_error p = ENone /\ r_cached p = false).
+Proof.
+  intros fl cfg atts. induction atts as [|a rest IH]; intros n prev r e ls H; [cbn in H; discriminate|].
+  rewrite do_loop_cons in H.
+  destruct (do_attempt fl cfg a n prev) as [[ro0 e0|r0] l0] eqn:A.
+  - destruct (do_deferred_spec ro0 e0) as (r1 & D & _). rewrite D in H. inversion H; subst.
+    exists 0%nat, a, prev, ro0, e, l0. cbn. replace (n + 0) with n by lia.
+    split; [reflexivity|]. split; [reflexivity|]. split; [reflexivity|]. split; [exact A|]. split; [exact D|].
+    split; [auto|]. intro X; lia.
+  - destruct (do_loop fl cfg rest (n + 1) (Some r0)) as [ro1 e1 ls1|] eqn:L; cbn in H; [|discriminate].
+    inversion H; subst.
+    destruct (IH _ _ _ _ _ L) as (k & a' & prev' & ro & e0 & l & K1 & K2 & K3 & K4 & K5 & K6 & K7).
+    pose proof (do_loop_logs _ _ _ _ _ _ _ _ L) as [Len _].
+    exists (S k), a', prev', ro, e0, l. cbn [length nth_error].
+    split; [lia|]. split; [exact K2|]. split; [exact K3|].
+    split; [replace (n + Z.of_nat (S k)) with (n + 1 + Z.of_nat k) by lia; exact K4|]. split; [exact K5|].
+    split; [intro X; discriminate|]. intros _.
+    destruct k.
+    + rewrite (K6 eq_refl). exists r0. split; [reflexivity|]. eapply retry_clears_bindings; eauto.
+    + apply K7. lia.
+Qed.
